@@ -125,6 +125,22 @@ fn malformed<F: Function<Trace = VmTrace> + MathFunction>(r: &mut Rng, backend: 
         let n = r.range(1, 9);
         if se.eval(&st, &[vec![0.0; n], vec![0.0; n + 1], vec![0.0; n]]).is_ok() { bad.push("mismatched slice lengths accepted".to_string()); }
         if se.eval(&st, &[vec![0.0; n]]).is_ok() { bad.push("too few slices accepted".to_string()); }
+        // surplus slices (more than the tape has variables): a length mismatch among them is an error value,
+        // equal lengths are accepted; short batches (below the SIMD width), zero length, and long ones
+        for n in [0usize, 1, 3, 7, 8, 40] {
+            let mut sl = vec![vec![0.5f32; n]; 3];
+            sl.push(vec![0.5; n + 2]);
+            if se.eval(&st, &sl).is_ok() { bad.push(format!("a surplus slice of a different length accepted (n={n})")); }
+            let mut sl = vec![vec![0.5f32; n]; 5];
+            if se.eval(&st, &sl).is_err() { bad.push(format!("surplus slices of equal length rejected (n={n})")); }
+            sl[4] = vec![];
+            if n > 0 && se.eval(&st, &sl).is_ok() { bad.push(format!("an empty surplus slice accepted (n={n})")); }
+            let gt = f.grad_slice_tape(Default::default());
+            let mut ge = F::new_grad_slice_eval();
+            let mut gl = vec![vec![fidget_core::types::Grad::from(0.5); n]; 3];
+            gl.push(vec![fidget_core::types::Grad::from(0.5); n + 1]);
+            if ge.eval(&gt, &gl).is_ok() { bad.push(format!("a surplus gradient slice of a different length accepted (n={n})")); }
+        }
         // extra variables are fine
         if pe.eval(&t, &[1.0, 2.0, 3.0, 4.0, 5.0]).is_err() { bad.push("extra variables rejected".to_string()); }
         // missing bound variable at the shape level
